@@ -19,7 +19,7 @@ vars == <<tid, l, s>>
 ToSet(q) == {q[k] : k \in 1..Len(q)}
 Fail(st, clause) == [st EXCEPT !.err = clause]
 
-InitState == [reg |-> {}, pend |-> {}, bt |-> [b \in Bids |-> {}], live |-> [b \in Bids |-> {}], err |-> ""]
+InitState == [reg |-> {}, pend |-> {}, bt |-> [b \in Bids |-> {}], live |-> [b \in Bids |-> {}], lax |-> {}, err |-> ""]
 
 Registered(st, ty) == {v.name : v \in {x \in st.reg : x.type = ty}}
 LiveOf(st, b, ty) == {p[2] : p \in {q \in st.live[b] : q[1] = ty}}
@@ -29,10 +29,12 @@ CheckClause(st) ==
   ELSE IF \E b \in Bids : \E ty \in st.bt[b] : LiveOf(st, b, ty) \ Registered(st, ty) # {} THEN "C07_WithdrawnNotRemoved"
   ELSE ""
 
+(* a browser one of whose callbacks raised (st.lax) may be told the events of that batch again: for it only the sets are
+   judged, not the alternation *)
 OnCb(st, e) ==
-  IF e.kind = "add" THEN (IF <<e.ty, e.name>> \in st.live[e.bid] THEN Fail(st, "C07_Alternation")
+  IF e.kind = "add" THEN (IF <<e.ty, e.name>> \in st.live[e.bid] /\ e.bid \notin st.lax THEN Fail(st, "C07_Alternation")
                           ELSE [st EXCEPT !.live[e.bid] = @ \cup {<<e.ty, e.name>>}])
-  ELSE IF e.kind = "rem" THEN (IF <<e.ty, e.name>> \notin st.live[e.bid] THEN Fail(st, "C07_Alternation")
+  ELSE IF e.kind = "rem" THEN (IF <<e.ty, e.name>> \notin st.live[e.bid] /\ e.bid \notin st.lax THEN Fail(st, "C07_Alternation")
                                ELSE [st EXCEPT !.live[e.bid] = @ \ {<<e.ty, e.name>>}])
   ELSE st
 
@@ -64,6 +66,8 @@ Step(st, e) ==
     [] e.ev = "cb"     -> OnCb(st, e)
     [] e.ev = "lookup_ret" -> OnLookup(st, e)
     [] e.ev = "check"  -> IF CheckClause(st) # "" THEN Fail(st, CheckClause(st)) ELSE st
+    [] e.ev = "uexc"   -> [st EXCEPT !.lax = @ \cup {e.bid}]
+    [] e.ev = "inject" -> st
     [] e.ev = "exc"    -> Fail(st, "C15_NoException")
     [] e.ev = "end"    -> st
     [] OTHER           -> Fail(st, "Trace_Malformed")
